@@ -122,6 +122,13 @@ ROWS = [None, None, ("N", "Y"), ("N", "N"), ("Y", "Y"), ("X", "Y"), ("Y", "N")] 
 
 
 def gen_case(rng):
+    c = _gen_case(rng)
+    if c.get("kind") == "via_symlink":
+        c["link_inside"] = rng.random() < 0.5
+    return c
+
+
+def _gen_case(rng):
     return {"kind": rng.choice(KINDS), "det": rng.choice(DET), "register": rng.random() < 0.75, "acq_known": rng.random() < 0.5, "file_known": rng.random() < 0.4,
             "copy": rng.choice(ROWS), "vet": rng.choice([None, None, None, None, "absolute", "marker", "noncanon", "scan_ok", "scan_missing", "scan_out", "scan_loop"])}
 
@@ -179,7 +186,13 @@ def run_case(ctx, base, case):
             os.mkfifo(full)
         elif kind == "via_symlink":
             (root / acq).mkdir(parents=True, exist_ok=True)
-            os.symlink(sim.base / "outside", root / acq / "ldir")
+            if case.get("link_inside"):
+                # the symlinked directory points to a directory INSIDE the node tree: the path is an alias of a real file, still not imported
+                (root / "real").mkdir(exist_ok=True)
+                (root / "real" / "precious").write_bytes(content)
+                os.symlink(root / "real", root / acq / "ldir")
+            else:
+                os.symlink(sim.base / "outside", root / acq / "ldir")
         # detector
         det = case["det"]
         acq_name = acq
@@ -698,8 +711,9 @@ def explore(ctx):
     iterms, vterms, keep = [], [], []
     n = 220 if ctx.quick() else 5000
     ran = 0
-    for k in range(n):
-        case = gen_case(ctx.rng)
+    fixed = [{"kind": "via_symlink", "link_inside": li, "det": "default", "register": True, "acq_known": ak, "file_known": False, "copy": None, "vet": None} for li in (True, False) for ak in (False, True)]
+    for k in range(n + len(fixed)):
+        case = fixed[k] if k < len(fixed) else gen_case(ctx.rng)
         terms, r = run_case(ctx, base, case)
         ctx.count("import-request")
         ran += r
